@@ -35,6 +35,33 @@ def confirm(wt, name):
         meta['confirmed_by_main'] = res
         json.dump(meta, open(meta_p, 'w'), indent=1)
     return ok
+def run_scratch(name, pids, tier='quick'):
+    """as run, but in a scratch worktree of /repo's HEAD (VERIF_REPO points the checks at it): for use while other work
+    reads /repo; several of these can run at once"""
+    patch = os.path.join(V, 'seeded', name, 'patch.diff')
+    wt = f'/var/tmp/seedrepo_{name}'
+    sh(f'git -C /repo worktree remove --force {wt}', '/')
+    r = sh(f'git -C /repo worktree add -q --detach {wt} HEAD', '/')
+    if r.returncode: print('worktree failed', r.stdout); return 2
+    out = {}
+    try:
+        r = sh(f'git apply {patch}', wt)
+        if r.returncode: print('apply failed', r.stdout); return 2
+        for pid in pids:
+            r = sh(f'VERIF_REPO={wt} VERIF_EVIDENCE_DIR=/var/tmp/seedev_{name} python3 {V}/check.py {pid} --tier {tier}', V)
+            lines = [l for l in r.stdout.splitlines() if l.startswith('VIOLATION')]
+            out[pid] = {'rc': r.returncode, 'lines': lines[:8], 'detected': any('no-failing-input-found' not in l or 'correspondence' in l for l in lines) and r.returncode == 1}
+            print(name, pid, r.returncode, [l[:90] for l in lines[:2]], flush=True)
+            if r.returncode not in (0, 1): print(r.stdout[-2000:])
+    finally:
+        sh(f'git -C /repo worktree remove --force {wt}', '/')
+        sh(f'rm -rf /var/tmp/seedev_{name}', '/')
+    p = os.path.join(V, 'seeded', name, 'detected.json')
+    try: prev = json.load(open(p))
+    except Exception: prev = {}
+    prev.update(out)
+    json.dump(prev, open(p, 'w'), indent=1)
+    return 0
 def run(name, pids, tier='quick'):
     patch = os.path.join(V, 'seeded', name, 'patch.diff')
     st = sh('git status --porcelain', '/repo').stdout.strip()
@@ -60,3 +87,4 @@ def run(name, pids, tier='quick'):
 if __name__ == '__main__':
     if sys.argv[1] == 'confirm': sys.exit(0 if confirm(sys.argv[2], sys.argv[3]) else 1)
     if sys.argv[1] == 'run': sys.exit(run(sys.argv[2], sys.argv[3:]))
+    if sys.argv[1] == 'scratch': sys.exit(run_scratch(sys.argv[2], sys.argv[3:]))
